@@ -29,3 +29,70 @@ def keptPos {κ : Type} [BEq κ] (key : Nat → κ) (n : Nat) (h t : Option Nat)
   if anyOption h t s then (concatPos n h t s).eraseDupsBy (fun a b => key a == key b) else List.range n
 
 end Pandera
+
+namespace Pandera
+
+/-! ## The `subsample` method as a program (regenerated from the source)
+
+`PandasSchemaBackend.subsample` / `PolarsSchemaBackend.subsample` append one piece per option that is
+not `None`, in source order, return the object itself when nothing was appended, and otherwise the
+concatenation, de-duplicated by key.  `Generated/SubsampleRules.lean` holds the two programs and, per
+backend entry point, which core check receives the subsample and which the whole object. -/
+
+inductive Piece | head | tail | sample
+  deriving Repr, DecidableEq, Inhabited
+
+structure SubProg where
+  pieces : List Piece
+  dedup : Bool                  -- the concatenation is de-duplicated by key
+  wholeWhenNoOption : Bool      -- `check_obj if not pieces else …`
+  deriving Repr, DecidableEq, Inhabited
+
+def pieceRequested (h t : Option Nat) (s : Option (List Nat)) : Piece → Bool
+  | .head => h.isSome
+  | .tail => t.isSome
+  | .sample => s.isSome
+
+def piecePos (n : Nat) (h t : Option Nat) (s : Option (List Nat)) : Piece → List Nat
+  | .head => (match h with | some h => headPos n h | none => [])
+  | .tail => (match t with | some t => tailPos n t | none => [])
+  | .sample => (match s with | some ps => ps | none => [])
+
+/-- the positions the program hands to the data-level checks -/
+def runSub {κ : Type} [BEq κ] (p : SubProg) (key : Nat → κ) (n : Nat) (h t : Option Nat)
+    (s : Option (List Nat)) : List Nat :=
+  let parts := p.pieces.filter (pieceRequested h t s)
+  if parts.isEmpty then (if p.wholeWhenNoOption then List.range n else [])
+  else
+    let cat := (parts.map (piecePos n h t s)).flatten
+    if p.dedup then cat.eraseDupsBy (fun a b => key a == key b) else cat
+
+/-- the program reads every option and falls back to the whole object -/
+def SubProg.covers (p : SubProg) : Bool :=
+  p.pieces.contains .head && p.pieces.contains .tail && p.pieces.contains .sample && p.wholeWhenNoOption
+
+/-- the core checks of the four entry points -/
+inductive CoreCheck
+  | namesUnique | presence | jointUnique | components | frameChecks     -- containers
+  | fieldName | nullable | unique | dtype | checks                      -- fields
+  | unknown
+  deriving Repr, DecidableEq, Inhabited
+
+/-- what a core check receives -/
+inductive Arg | whole | sample | other
+  deriving Repr, DecidableEq, Inhabited
+
+def argOf (table : List (CoreCheck × Arg)) (name : CoreCheck) : Arg :=
+  match table.find? (fun p => p.1 == name) with
+  | some p => p.2
+  | none => .other
+
+/-- every listed core check is in the table and receives the subsample -/
+def seeSample (table : List (CoreCheck × Arg)) (names : List CoreCheck) : Bool :=
+  names.all (fun n => argOf table n == .sample)
+
+/-- every entry of the table is a known core check receiving one of the two objects -/
+def wellFormedTable (table : List (CoreCheck × Arg)) : Bool :=
+  table.all (fun p => p.1 != .unknown && p.2 != .other)
+
+end Pandera
